@@ -1,4 +1,5 @@
 import BlackIt.Lemmas.RLProtocol
+import BlackIt.Lemmas.RLTermination
 set_option linter.unusedSectionVars false
 set_option linter.unusedSimpArgs false
 set_option linter.unusedVariables false
@@ -124,6 +125,53 @@ theorem terminal_is_finished (f : List AgEv → Nat) (d : DSt) (hinv : Inv d.s) 
     simp_all [Inv, tail, stepM, stepA, step]
   all_goals (first | ((repeat' split at hm) <;> simp_all) | skip)
 
+/-! ## termination -/
+
+theorem inv_drun (f : List AgEv → Nat) (σ : List Bool) (d e : DSt) (hinv : Inv d.s) (h : drun f d σ = some e) : Inv e.s := by
+  induction σ generalizing d with
+  | nil => simp only [drun, Option.some.injEq] at h; exact h ▸ hinv
+  | cons t σ ih =>
+    rw [drun_cons] at h
+    cases hd : stepT f t d with
+    | none => simp [hd] at h
+    | some d1 => simp only [hd, Option.bind_some] at h; exact ih d1 (inv_stepT f t d d1 hinv hd) h
+
+theorem drun_append (f : List AgEv → Nat) (σ τ : List Bool) (d e e' : DSt)
+    (h : drun f d σ = some e) (h' : drun f e τ = some e') : drun f d (σ ++ τ) = some e' := by
+  induction σ generalizing d with
+  | nil => simp only [drun, Option.some.injEq] at h; subst h; simpa using h'
+  | cons t σ ih =>
+    rw [drun_cons] at h
+    cases hd : stepT f t d with
+    | none => simp [hd] at h
+    | some d1 =>
+      simp only [hd, Option.bind_some] at h
+      rw [List.cons_append, drun_cons, hd]; exact ih d1 h
+
+/-- **the exchange terminates**: for a finite script of sessions and any agent, every execution — whatever the
+interleaving — is at most `rank` moves long (no livelock: neither thread can spin), -/
+theorem terminates (f : List AgEv → Nat) (script : List (Nat × Bool)) (σ : List Bool) (e : DSt)
+    (h : drun f { sessions := script } σ = some e) : σ.length ≤ rank { sessions := script } := by
+  have := drun_length_le f σ _ e h; omega
+
+/-- **and it cannot stop half-way**: every partial execution can be continued to a complete one, every complete
+one is *finished* (script used up, no session open, agent thread dead, both queues empty, every executed action
+learned exactly once), and all complete ones end in the same state.  Together with `terminates`: every maximal
+execution is finite and finished. -/
+theorem every_run_completes (f : List AgEv → Nat) (script : List (Nat × Bool)) (σ : List Bool) (d : DSt)
+    (h : drun f { sessions := script } σ = some d) :
+    ∃ τ e, drun f { sessions := script } (σ ++ τ) = some e ∧ terminal f e = true ∧
+      e.s.mpc = .idle ∧ e.sessions = [] ∧ e.s.apc = .dead ∧ e.s.actionQ = [] ∧ e.s.outcomeQ = [] ∧
+      e.s.learned = e.s.executed ∧
+      ∀ σ' e', drun f { sessions := script } σ' = some e' → terminal f e' = true → e' = e := by
+  obtain ⟨τ, e, hr, ht⟩ := complete_run_exists f d
+  have hfull := drun_append f σ τ _ d e h hr
+  have hinv : Inv e.s := inv_drun f _ _ e inv_init hfull
+  obtain ⟨a, b, c, d', e'', g⟩ := terminal_is_finished f e hinv ht
+  refine ⟨τ, e, hfull, ht, a, b, c, d', e'', g, ?_⟩
+  intro σ' e' h' t'
+  exact schedule_independent f { sessions := script } inv_init σ' (σ ++ τ) e' e h' t' hfull ht
+
 /-! ### non-vacuity: two sessions, a failure, two different interleavings, same result -/
 section Example
 def exAgent (h : List AgEv) : Nat := h.length % 2
@@ -138,6 +186,8 @@ example : (drun exAgent { sessions := exScript } schedA).map (fun d => d.s.execu
 example : (drun exAgent { sessions := exScript } schedA).map (fun d => d.s.learned) = some [(2, 0), (3, 1)] := by decide
 example : (drun exAgent { sessions := exScript } schedA).map (fun d => terminal exAgent d) = some true := by decide
 example : (drun exAgent { sessions := exScript } schedM).map (fun d => terminal exAgent d) = some true := by decide
+example : rank { sessions := exScript } = 105 := by decide
+example : schedM.length = 31 := by decide
 end Example
 
 end BlackIt.RL
